@@ -88,6 +88,12 @@ type scriptSpec struct {
 	MixedBursts int  `json:"mixed_bursts,omitempty"`
 	MixedFrom   int  `json:"mixed_from_ms,omitempty"`
 	Mixed       bool `json:"mixed_script,omitempty"`
+	// Capacity > 0: one capacity probe (capacity.go) with that many victims:
+	// every global lookup slot pinned, cache-miss questions refused, then the
+	// same names asked by other clients once the server is quiet again.
+	// CapacityScript marks a script whose purpose it is.
+	Capacity       int  `json:"capacity_victims,omitempty"`
+	CapacityScript bool `json:"capacity_script,omitempty"`
 	Seed     uint64    `json:"seed"`
 }
 
@@ -161,6 +167,12 @@ func baseScripts() []scriptSpec {
 			Zone: faultMix{Honest: 1, TCPAnswer: 1}, TLD: faultMix{Honest: 1, TCPAnswer: 1},
 			Waves: 1, WaveSize: 6, Patterns: []patternWeight{{"distinct-zone", 1}},
 			MixedBursts: 6, MixedFrom: 700, Mixed: true},
+		// ---- capacity script (capacity.go): honest universe, a four-slot lookup
+		// pool, a token warm-up wave; nothing else in flight but the control client
+		{Name: "capacity-refusal", Tweaks: envTweaks{ZoneServers: zs(1, 1, 1), MaxConcurrent: 4},
+			Zone: faultMix{Honest: 1, TCPAnswer: 1}, TLD: faultMix{Honest: 1, TCPAnswer: 1},
+			Waves: 1, WaveSize: 6, Patterns: []patternWeight{{"distinct-zone", 1}},
+			Capacity: 6, CapacityScript: true},
 	}
 }
 
@@ -169,7 +181,7 @@ func baseScripts() []scriptSpec {
 func nBaseScripts(list []scriptSpec) int64 {
 	n := int64(0)
 	for _, s := range list {
-		if !s.Poison && !s.Mixed {
+		if !s.Poison && !s.Mixed && !s.CapacityScript {
 			n++
 		}
 	}
